@@ -11,9 +11,19 @@
     smix       = bytesOfBlocks ∘ Impl.smix ∘ blocksOfBytes on the first 128·r bytes (`smix_eq`)
     scrypt     = Impl.scrypt                          (`scrypt_eq_impl`), then `Impl.scrypt_eq` (KestrelProofs/Scrypt.lean).
   Salsa20/8's double round is only unfolded once (to see that the loop body of `salsa_xor` is `salsaDouble`).
+
+  Robustness to maintenance rewrites of scrypt.rs (regression test: tools/selftest_stream_scrypt.py).  Named constants are
+  `@[simp]` in the generated file and every proof that unfolds a generated function calls `rs_unfold` (KestrelProofs/RsUnfold.lean)
+  right after, so a literal may be given a name (`BLOCK_BYTES`, `SALSA_ROUNDS`, …) and a loop-invariant expression may be
+  bound to a local (`let mask = (N - 1) as u64`).  Loop bodies are never restated (`_` + `fun _ _ => rfl` against the
+  projection-form bodies `mixBody`, `fillBody`, …).  The three loops that a maintainer may write with an index or with
+  iterators are proved in both forms and tried in turn (`first`): `block_xor` (`enumerate` / `iter_mut().zip`), and the
+  byte↔word loops of `smix` (running offset `j += 4` / `chunks_exact(4)`, `chunks_exact_mut(4)`).  Still positional: the
+  arithmetic form of the bounds (`32 * r`, `i * R`, `2 * r - 1`): the loop lemmas are applied by syntactic rewriting.
 -/
 import KestrelModel.GeneratedScrypt
 import KestrelProofs.Scrypt
+import KestrelProofs.RsUnfold
 namespace Kestrel
 namespace ScryptSrc
 open Scrypt
@@ -91,6 +101,7 @@ theorem salsa_xor_eq (T B O : Blk) (ir or : List UInt32) :
     salsa_xor (words T) (words B ++ ir) (words O ++ or) =
       (words (salsa208 (T.xor B)), words (salsa208 (T.xor B)) ++ or) := by
   unfold salsa_xor
+  rs_unfold
   extract_lets w0 w1 w2 w3 w4 w5 w6 w7 w8 w9 w10 w11 w12 w13 w14 w15 x0 x1 x2 x3 x4 x5 x6 x7 x8 x9 x10 x11 x12 x13 x14 x15
   rw [salsa_loop _ (fun _ _ => rfl)]
   have hs : salsa208 (T.xor B) =
@@ -107,7 +118,9 @@ theorem block_copy_eq (dst src : List UInt32) (n : Nat) (hd : n ≤ dst.length) 
     block_copy dst src n = src.take n ++ dst.drop n := by
   have h1 : (dst.take n).length = n := by rw [List.length_take]; omega
   have h2 : (src.take n).length = n := by rw [List.length_take]; omega
-  simp only [block_copy, Rs.copyFromSlice, h1, h2, List.take_take, Nat.min_self, List.drop_take, Nat.sub_self,
+  unfold block_copy
+  rs_unfold
+  simp only [Rs.copyFromSlice, h1, h2, List.take_take, Nat.min_self, List.drop_take, Nat.sub_self,
     List.take_zero, List.append_nil]
 
 /-- writing `x` (all of it) into `v` at offset `a` through `block_copy(&mut v[a..], x, R)` -/
@@ -145,10 +158,32 @@ theorem block_xor_loop (f : Nat → UInt32 → List UInt32 → List UInt32)
       rw [Rs.set, List.set_eq_of_length_le hi', List.drop_of_length_le (by omega), List.drop_of_length_le hi',
         xorInto_nil_left, xorInto_nil_left, List.take_of_length_le (by omega), List.take_of_length_le hi']
 
+/-- the iterator form of the same loop: `for (d, s) in dst[..n].iter_mut().zip(&src[..n]) { *d ^= s }` -/
+theorem zipMut_xor (f : UInt32 → UInt32 → UInt32) (hf : ∀ a b, f a b = a ^^^ b) :
+    ∀ (d e : List UInt32), Rs.zipMut d e f = xorInto d e
+  | [], [] => rfl
+  | [], _ :: _ => rfl
+  | _ :: _, [] => rfl
+  | a :: as, b :: bs => by rw [Rs.zipMut, hf, zipMut_xor f hf as bs, xorInto]
+
+theorem xorInto_take_append : ∀ (n : Nat) (d e : List UInt32), e.length ≤ n → xorInto (d.take n) e ++ d.drop n = xorInto d e
+  | _, [], e, _ => by simp [xorInto_nil_left]
+  | _, d :: ds, [], _ => by simp [xorInto_nil_right]
+  | 0, _ :: _, _ :: _, h => by simp at h
+  | n+1, d :: ds, e :: es, h => by
+    rw [List.take_succ_cons, List.drop_succ_cons, xorInto, xorInto, List.cons_append,
+      xorInto_take_append n ds es (by simpa using h)]
+
+/-- **block_xor**, whichever way its loop is written: an index loop over `src[..n].iter().enumerate()`, or
+    `dst[..n].iter_mut().zip(&src[..n])` -/
 theorem block_xor_eq (dst src : List UInt32) (n : Nat) : block_xor dst src n = xorInto dst (src.take n) := by
   unfold block_xor
-  rw [Rs.forEnum, block_xor_loop _ (fun _ _ _ => rfl)]
-  rfl
+  rs_unfold
+  first
+    | (rw [Rs.forEnum, block_xor_loop _ (fun _ _ _ => rfl)]
+       rfl)
+    | (simp only []
+       rw [zipMut_xor _ (fun _ _ => rfl), xorInto_take_append n _ _ (by rw [List.length_take]; omega)])
 
 theorem xorInto_append (a b : Blk) (r r' : List UInt32) :
     xorInto (words a ++ r) (words b ++ r') = words (a.xor b) ++ xorInto r r' := by
@@ -193,7 +228,9 @@ theorem integer_eq (X : List Blk) (r : Nat) (hr : 1 ≤ r) (hX : X.length = 2 * 
   have hi := idx_flat_snoc (X.take (2 * r - 1)) (X.getLast?.getD Blk.zero) ((2 * r - 1) * 16)
     (by rw [List.length_take]; omega)
   rw [← hs] at hi
-  simp only [integer, integerify, hi.1, hi.2, or_shift32]
+  unfold integer
+  rs_unfold
+  simp only [integerify, hi.1, hi.2, or_shift32]
 
 /-! ### block_mix -/
 
@@ -305,6 +342,7 @@ theorem block_mix_eq (T : Blk) (B O : List Blk) (r : Nat) (hr : 1 ≤ r) (hB : B
     rw [hT', blockMix_pairs]
     simp only [List.take_zero, List.drop_zero, List.nil_append]
   unfold block_mix
+  rs_unfold
   simp only [hc, forStep_two]
   exact key _ (fun _ _ => rfl)
 
@@ -413,6 +451,57 @@ theorem pack_loop (F : UInt32 → List UInt8 × Nat → List UInt8 × Nat) (hF :
     rw [List.take_left' hlen, ← List.drop_drop, List.drop_left' hlen, List.drop_drop,
       List.flatMap_cons, List.length_cons]
     simp only [List.append_assoc, show j + 4 + 4 * ws.length = j + 4 * (ws.length + 1) by omega]
+
+/-- the iterator form of the first loop of `smix`:
+    `for (word, bytes) in x[..R].iter_mut().zip(b[..4 * R].chunks_exact(4)) { *word = u32::from_le_bytes(bytes) }` -/
+theorem unpack_zip (F : UInt32 → List UInt8 → UInt32) (hF : ∀ w bs, F w bs = Rs.u32FromLeBytes bs) :
+    ∀ (x : List UInt32) (m : Nat) (l : List UInt8), x.length ≤ m → 4 * x.length ≤ l.length →
+      Rs.zipMut x (Rs.chunksFrom 4 m l) F = words32le (l.take (4 * x.length))
+  | [], _, _, _, _ => by
+    cases ‹Nat› <;> simp [Rs.zipMut, Rs.chunksFrom, words32le]
+  | w :: ws, 0, _, hm, _ => by simp at hm
+  | w :: ws, m+1, l, hm, hl => by
+    simp only [List.length_cons] at hm hl
+    obtain ⟨c0, c1, c2, c3, hc⟩ := drop_four l 0 (by omega)
+    rw [List.drop_zero] at hc
+    rw [Rs.chunksFrom, Rs.zipMut, hF, unpack_zip F hF ws m (l.drop 4) (by omega) (by rw [List.length_drop]; omega)]
+    rw [List.length_cons, show 4 * (ws.length + 1) = 4 * ws.length + 1 + 1 + 1 + 1 by omega, hc]
+    simp only [List.take_succ_cons, List.take_zero, Nat.zero_add, words32le, List.drop_succ_cons, List.drop_zero]
+    rfl
+
+theorem unpack_zip_all (b : List UInt8) (x : List UInt32) (r : Nat) (F : UInt32 → List UInt8 → UInt32)
+    (hF : ∀ w bs, F w bs = Rs.u32FromLeBytes bs) (hx : x.length = 32 * r) (hb : 128 * r ≤ b.length) :
+    Rs.zipMut (x.take (32 * r)) (Rs.chunksExact 4 (b.take (4 * (32 * r)))) F ++ x.drop (32 * r) =
+      flat (blocksOfBytes (2 * r) (b.take (128 * r))) := by
+  have hl : (b.take (4 * (32 * r))).length = 4 * (32 * r) := by rw [List.length_take]; omega
+  rw [List.take_of_length_le (Nat.le_of_eq hx), List.drop_of_length_le (Nat.le_of_eq hx), List.append_nil, Rs.chunksExact,
+    unpack_zip F hF x _ _ (by rw [hl, hx]; omega) (by rw [hl, hx]; exact Nat.le_refl _),
+    flat_blocksOfBytes _ _ (by rw [List.length_take]; omega), hx, List.take_take, List.take_take]
+  rw [show min (4 * (32 * r)) (4 * (32 * r)) = 4 * (32 * r) by omega, show min (64 * (2 * r)) (128 * r) = 4 * (32 * r) by omega]
+
+/-- the iterator form of the last loop of `smix`:
+    `for (bytes, word) in b[..4 * R].chunks_exact_mut(4).zip(&x[..R]) { bytes.copy_from_slice(&word.to_le_bytes()) }` -/
+theorem pack_zip (F : List UInt8 → UInt32 → List UInt8) (hF : ∀ bs w, F bs w = Rs.copyFromSlice bs (Rs.u32ToLeBytes w)) :
+    ∀ (ws : List UInt32) (l : List UInt8), l.length = 4 * ws.length →
+      (Rs.zipMut (Rs.chunksFrom 4 ws.length l) ws F).flatten = ws.flatMap u32le
+  | [], _, _ => rfl
+  | w :: ws, l, hl => by
+    simp only [List.length_cons] at hl
+    have h4 : (l.take 4).length = (u32le w).length := by
+      rw [List.length_take]; simp only [u32le, List.length_cons, List.length_nil]; omega
+    rw [List.length_cons, Rs.chunksFrom, Rs.zipMut, hF, Rs.u32ToLeBytes, copyFromSlice_eq _ _ h4, List.flatten_cons,
+      pack_zip F hF ws (l.drop 4) (by rw [List.length_drop]; omega), List.flatMap_cons]
+
+theorem pack_zip_all (b : List UInt8) (X : List UInt32) (r : Nat) (F : List UInt8 → UInt32 → List UInt8)
+    (hF : ∀ bs w, F bs w = Rs.copyFromSlice bs (Rs.u32ToLeBytes w)) (hX : X.length = 32 * r) (hb : 128 * r ≤ b.length) :
+    Rs.zipChunksMut 4 (b.take (4 * (32 * r))) (X.take (32 * r)) F ++ b.drop (4 * (32 * r)) =
+      X.flatMap u32le ++ b.drop (128 * r) := by
+  have hl : (b.take (4 * (32 * r))).length = 4 * (32 * r) := by rw [List.length_take]; omega
+  have hd : (b.take (4 * (32 * r))).length / 4 = X.length := by rw [hl, hX]; omega
+  have hr : (b.take (4 * (32 * r))).drop (4 * X.length) = [] := List.drop_of_length_le (by rw [hl, hX]; exact Nat.le_refl _)
+  rw [List.take_of_length_le (Nat.le_of_eq hX)]
+  unfold Rs.zipChunksMut Rs.chunksExact
+  rw [hd, pack_zip F hF X _ (by rw [hl, hX]), hr, List.append_nil, show 4 * (32 * r) = 128 * r by omega]
 
 /-! ### the flat table `v` -/
 
@@ -678,11 +767,15 @@ theorem smix_eq (b : List UInt8) (v x y : List UInt32) (r N kk : Nat) (hN : N = 
   obtain ⟨Y0, hY0, rfl⟩ := exists_flat (2 * r) y (by omega)
   have hz : List.replicate 16 (0 : UInt32) = words Blk.zero := rfl
   unfold smix
+  rs_unfold
   simp only [hz]
-  generalize h1 : Rs.forRange 0 (32 * r) _ (x, 0) = s1
-  have e1 := unpack_all b _ s1 x r h1 (fun _ _ => rfl) hx hb
-  subst e1
-  simp only []
+  -- first loop (bytes of `b` to words of `x`): an index loop with a running byte offset, or `iter_mut().zip(chunks_exact(4))`
+  first
+    | (generalize h1 : Rs.forRange 0 (32 * r) _ (x, 0) = s1
+       have e1 := unpack_all b _ s1 x r h1 (fun _ _ => rfl) hx hb
+       subst e1
+       simp only [])
+    | simp only [unpack_zip_all b x r _ (fun _ _ => rfl) hx hb]
   generalize h2 : Rs.forStep 0 N 2 _ (v, flat (blocksOfBytes (2 * r) (b.take (128 * r))), flat Y0, words Blk.zero) = s2
   have hX0 : (blocksOfBytes (2 * r) (b.take (128 * r))).length = 2 * r := blocksOfBytes_length _ _
   obtain ⟨Y1, T1, rfl, hY1⟩ := fill_all r (32 * r) N hr rfl _ s2 (N / 2) hm v _ Y0 Blk.zero h2 (fun _ _ => rfl) hX0 hY0 hv
@@ -693,19 +786,25 @@ theorem smix_eq (b : List UInt8) (v x y : List UInt32) (r N kk : Nat) (hN : N = 
   obtain ⟨Y2, T2, rfl, hX2, hY2⟩ := mix_all r (32 * r) N kk hr rfl hN (N / 2) hm _ (by rw [hVs]; simp; omega) hVl _ s3 _ Y1 T1 h3
     (fun _ _ => rfl) hX1 hY1
   simp only []
-  clear h1 h2 h3
+  clear h2 h3
   rw [← smix_unfold] at hX2 ⊢
   generalize Impl.smix N (blocksOfBytes (2 * r) (b.take (128 * r))) = X3 at hX2 ⊢
   have hfl : (flat X3).length = 32 * r := by rw [flat_length, hX2]; omega
-  rw [List.take_of_length_le (Nat.le_of_eq hfl)]
-  generalize h4 : Rs.forIn (flat X3) _ (b, 0) = s4
-  have e4 := pack_all _ s4 (flat X3) b h4 (fun _ _ => rfl) (by rw [hfl]; omega)
-  refine ⟨flatL (Impl.fillV2 (N / 2) (blocksOfBytes (2 * r) (b.take (128 * r))) #[]).1.toList, flat X3, flat Y2, ?_, ?_,
-    hfl, by rw [flat_length, hY2]; omega, hX2⟩
-  · rw [e4, bytesOfBlocks_eq, hfl, show 4 * (32 * r) = 128 * r by omega]
-  · rw [flatL_length (2 * r) _ hVl, Array.length_toList, hVs]
+  have hvl : (flatL (Impl.fillV2 (N / 2) (blocksOfBytes (2 * r) (b.take (128 * r))) #[]).1.toList).length = N * (32 * r) := by
+    rw [flatL_length (2 * r) _ hVl, Array.length_toList, hVs]
     simp only [List.size_toArray, List.length_nil, Nat.zero_add]
     rw [← hm, show 16 * (2 * r) = 32 * r by omega]
+  -- last loop (words of `x` back to bytes of `b`): a `for` over `&x[..R]` with a running byte offset, or
+  -- `chunks_exact_mut(4).zip(&x[..R])`
+  first
+    | (rw [List.take_of_length_le (Nat.le_of_eq hfl)]
+       generalize h4 : Rs.forIn (flat X3) _ (b, 0) = s4
+       have e4 := pack_all _ s4 (flat X3) b h4 (fun _ _ => rfl) (by rw [hfl]; omega)
+       refine ⟨_, flat X3, flat Y2, ?_, hvl, hfl, by rw [flat_length, hY2]; omega, hX2⟩
+       rw [e4, bytesOfBlocks_eq, hfl, show 4 * (32 * r) = 128 * r by omega])
+    | (rw [pack_zip_all b (flat X3) r _ (fun _ _ => rfl) hfl hb]
+       refine ⟨_, flat X3, flat Y2, ?_, hvl, hfl, by rw [flat_length, hY2]; omega, hX2⟩
+       rw [bytesOfBlocks_eq])
 
 /-! ### scrypt -/
 
@@ -759,6 +858,7 @@ attribute [local irreducible] smix in
 theorem scrypt_eq_impl (pw salt : Bytes) (N r p dkLen kk : Nat) (hN : N = 2 ^ kk) (hk : 1 ≤ kk) (hr : 1 ≤ r) :
     scrypt pw salt N r p dkLen = Impl.scrypt pw salt N r p dkLen := by
   unfold scrypt
+  rs_unfold
   simp only [List.length_replicate]
   generalize h : Rs.forRange 0 p _ _ = s
   have hB : (pbkdf2Sha256 pw salt 1 (p * 128 * r)).length = p * (128 * r) := by
